@@ -21,6 +21,7 @@ import (
 	"fmt"
 	"time"
 
+	apps "k8s.io/api/apps/v1"
 	corev1 "k8s.io/api/core/v1"
 	"k8s.io/apimachinery/pkg/api/errors"
 	metav1 "k8s.io/apimachinery/pkg/apis/meta/v1"
@@ -499,8 +500,17 @@ func (m *Manager) RestoreStableService(c *TrafficRoutingContext) (bool, error) {
 	graceSeconds := GetGraceSeconds(c.ObjectRef, defaultGracePeriodSeconds)
 	retry, remaining, err := grace.RunWithGraceSeconds(string(stableService.UID), "restoreService", graceSeconds, func() (bool, error) {
 		modified := false
-		if stableService.Spec.Selector[c.RevisionLabelKey] != "" {
-			body := fmt.Sprintf(`{"spec":{"selector":{"%s":null}}}`, c.RevisionLabelKey)
+		// The revision label key comes from the workload. When the workload of a rollout is already gone
+		// (deleted together with the rollout) it is unknown: un-pin whichever of the two keys a rollout pins with.
+		revisionLabelKeys := []string{c.RevisionLabelKey}
+		if c.RevisionLabelKey == "" && !c.OnlyTrafficRouting {
+			revisionLabelKeys = []string{apps.DefaultDeploymentUniqueLabelKey, apps.ControllerRevisionHashLabelKey}
+		}
+		for _, key := range revisionLabelKeys {
+			if stableService.Spec.Selector[key] == "" {
+				continue
+			}
+			body := fmt.Sprintf(`{"spec":{"selector":{"%s":null}}}`, key)
 			if err = m.Patch(context.TODO(), stableService, client.RawPatch(types.StrategicMergePatchType, []byte(body))); err != nil {
 				klog.Errorf("%s patch stable service(%s) failed: %s", c.Key, serviceName, err.Error())
 				return false, err
